@@ -48,7 +48,8 @@ NOT_COVERED = ['bit-for-bit equality for scale factors 2^k and -1 (bounded stand
 
 def units(tier):
     U = [u for u in C04.units(tier) if u.name in ('sd_stop', 'rilling_stop', 'fixed_stop', 'get_next_imf[sd]', 'get_next_imf[rilling]')]
-    U += [u for u in C05.units(tier) if u.name in ('_find_extrema', 'get_padded_extrema[troughs,pad=2]', 'get_padded_extrema[peaks,pad=2]')]
+    U += [u for u in C05.units(tier) if u.name in ('_find_extrema', 'compute_parabolic_extrema', 'get_padded_extrema[troughs,pad=2]', 'get_padded_extrema[peaks,pad=2]',
+                                                   'get_padded_extrema[troughs,pad=2,parabolic]', 'get_padded_extrema[peaks,pad=2,parabolic]')]
     # the mask amplitude rule the masked-sift lemmas rely on (amplitude = ratio x standard deviation, scalar or one per IMF): C07 units re-run here
     from contracts import C07
     U += [u for u in C07.units(tier) if u.name.startswith('mask_sift[ratio_')]
